@@ -55,12 +55,13 @@ META = {
                     'BUSY < ERROR (hypotheses BusyRules / BusyProg / BusyOps of busy_until_finished)'],
 }
 
-NSTATES = 4
+NSTATES = 5
 NCLEAN = 2
 DEFAULT_CLEAN = 2    # mixin only: no cleanup given to start_machine -> HasStates.on_cleanup (on_error / on_restart / on_stop)
 IDLE0 = [100, '']
-# status attached to the state functions of the module (st_0 and st_3 have none)
-HS_STATUS = {1: [340, 'state 1'], 2: [390, 'st 2']}
+# status attached to the state functions of the module (st_0 and st_3 have none; st_4 declares a status that is NOT busy:
+# WARN 'waiting' - the author's choice, e.g. a module waiting for a go)
+HS_STATUS = {1: [340, 'state 1'], 2: [390, 'st 2'], 4: [200, 'waiting']}
 HS_LABELS = {i: 'st %d' % i for i in range(NSTATES)}
 
 CUR = None          # the running case (one at a time)
@@ -707,7 +708,7 @@ def gen_status(rng, busy=True):
 def gen_req(rng, hs):
     if rng.random() < 0.65:
         kw = [[k, rng.randint(-3, 3)] for k in sorted(rng.sample(range(4), rng.choice([0, 1, 1, 2, 3])))]
-        ovr = gen_status(rng) if hs and rng.random() < 0.25 else None
+        ovr = gen_status(rng, busy=rng.random() < 0.8) if hs and rng.random() < 0.25 else None
         return ['start', rng.randrange(NSTATES), rng.choice([None, 0, 0, 1, DEFAULT_CLEAN] if hs else [None, 0, 0, 1]), kw, ovr]
     return ['stop', [100, rng.choice(['stopped', 'halt'])] if rng.random() < 0.8 else [150, 'parked']]
 
@@ -761,6 +762,119 @@ def gen_random(rng, hs, big):
             'threaded': rng.random() < 0.25}
 
 
+def _oc(ret, posts=(), fin=None):
+    return {'posts': list(posts), 'fin': fin, 'ret': ret}
+
+
+def gen_cleanup_outcomes(rng, kind=None):
+    """what a cleanup function does, as a list of scripted outcomes: the cleanup function itself and - when it hands over a
+    state - the calls of the cleanup SEQUENCE that follows (one or more states, with retries, up to its end)"""
+    kind = kind or rng.choice(['none', 'seq', 'seq', 'seq2', 'raise', 'finish', 'retry'])
+    if kind == 'none':
+        return [_oc('bad')]
+    if kind in ('raise', 'finish', 'retry'):
+        return [_oc(kind)]
+    a = rng.randrange(NSTATES)
+    out = [_oc(['next', a])] + [_oc('retry')] * rng.choice([0, 1, 1, 2])
+    if kind == 'seq2':
+        b = rng.randrange(NSTATES)
+        out += [_oc(['next', b])] + [_oc('retry')] * rng.choice([0, 1])
+    end = rng.choice(['finish', 'finish', 'finfin', 'bad', 'raise'])
+    out.append(_oc('finish', fin=[rng.choice([100, 200]), 'parked']) if end == 'finfin' else _oc(end))
+    return out
+
+
+INTERRUPTIONS = ['stop', 'restart', 'raise', 'bad', 'chain', 'error-in-sequence']
+CLEANUP_KINDS = ['none', 'seq', 'seq2', 'raise', 'finish', 'retry']
+
+
+def cleanup_catalogue(rng):
+    """every way a run can be interrupted (stop, restart, exception, non-callable return value, too many chained states,
+    an error inside a cleanup sequence already running) x every kind of cleanup (none needed, a sequence of one or two
+    further states, raising, Finish, Retry) x bare machine / module x loop limits"""
+    for hs in (False, True):
+        for maxloops in (1, 2, 3, 10):
+            for how in INTERRUPTIONS:
+                for ck in CLEANUP_KINDS:
+                    s0 = rng.randrange(NSTATES)
+                    start = ['req', ['start', s0, rng.choice([0, 1]), [[0, 1]], None]]
+                    ops = [start, ['cycle']]
+                    script = [_oc('retry')]
+                    cl = gen_cleanup_outcomes(rng, ck)
+                    if how == 'stop':
+                        ops += [['req', ['stop', [100, 'stopped']]]]
+                    elif how == 'restart':
+                        ops += [['req', ['start', rng.randrange(NSTATES), None, [[1, 2]], None]]]
+                    elif how in ('raise', 'bad'):
+                        script += [_oc(how)]
+                    elif how == 'chain':
+                        script += [_oc(['next', rng.randrange(NSTATES)]) for _ in range(maxloops)]
+                    else:   # a stop starts the cleanup sequence, then a state of that sequence fails
+                        ops += [['req', ['stop', [100, 'stopped']]]]
+                        cl = [_oc(['next', rng.randrange(NSTATES)]), _oc('retry'), _oc(rng.choice(['raise', 'bad']))]
+                    script += cl
+                    ops += [['cycle']] * (3 + len(cl))
+                    yield {'hasStates': hs, 'maxloops': maxloops, 'script': script, 'ops': ops, 'env': []}
+
+
+def gen_runs(rng, hs):
+    """several runs, one after the other, on ONE machine / module instance: each run starts at some state (with or without
+    attached status, busy or not, with or without status override), walks through a few states and ends by Finish, error,
+    too many chained states, or is stopped / restarted on the way; the cleanup may be a sequence of states.  What a run
+    leaves behind (attributes, caches, reasons, idle status) meets the next run."""
+    ops, script = [], []
+    maxloops = rng.choice([2, 3, 10])
+    carry = []          # outcomes of the cleanup of a run that is being restarted: they come first in the next run
+    for _ in range(rng.choice([2, 3, 3, 4])):
+        s = rng.randrange(NSTATES)
+        cl = rng.choice([None, 0, 1, DEFAULT_CLEAN] if hs else [None, 0, 1])
+        ovr = None
+        if hs and rng.random() < 0.2:
+            ovr = gen_status(rng, busy=rng.random() < 0.5)
+        kw = [[k, rng.randint(-3, 3)] for k in sorted(rng.sample(range(4), rng.choice([0, 1, 2])))]
+        ops.append(['req', ['start', s, cl, kw, ovr]])
+        script += carry
+        ops += [['cycle']] * (1 + sum(1 for o in carry if o['ret'] == 'retry'))
+        carry = []
+        scripted_cl = cl in (0, 1)
+        nwalk = rng.choice([1, 2, 2, 3])
+        for i in range(nwalk):
+            n = rng.choice([0, 1, 1, 2])
+            script += [_oc('retry')] * n
+            ops += [['cycle']] * n
+            if i < nwalk - 1:
+                script.append(_oc(['next', rng.randrange(NSTATES)]))
+        end = rng.choice(['finish', 'finish', 'stop', 'stop', 'stop', 'restart', 'bad', 'raise', 'chain'])
+        if end in ('stop', 'restart'):
+            script.append(_oc('retry'))
+            ops.append(['cycle'])
+            clo = gen_cleanup_outcomes(rng) if scripted_cl else []
+            if end == 'stop':
+                ops.append(['req', ['stop', [100, 'stopped'] if rng.random() < 0.8 else [150, 'parked']]])
+                script += clo
+                ops += [['cycle']] * (1 + sum(1 for o in clo if o['ret'] == 'retry'))
+            else:
+                carry = clo
+        else:
+            if end == 'finish':
+                script.append(_oc('finish', fin=rng.choice([None, [100, 'done'], [200, 'done']])))
+            elif end == 'chain':
+                script += [_oc(['next', rng.randrange(NSTATES)]) for _ in range(maxloops)]
+            else:
+                script.append(_oc(end))
+            clo = gen_cleanup_outcomes(rng) if scripted_cl and end != 'finish' else []
+            script += clo
+            ops += [['cycle']] * (1 + sum(1 for o in clo if o['ret'] == 'retry'))
+        if rng.random() < 0.3:
+            ops.append(['cycle'])
+    ops += [['cycle']] * 2
+    env = []
+    if rng.random() < 0.25:
+        for sl in sorted(rng.sample(range(60), rng.choice([1, 2]))):
+            env.append([sl, [gen_req(rng, hs)]])
+    return {'hasStates': hs, 'maxloops': maxloops, 'script': script, 'ops': ops, 'env': env, 'threaded': rng.random() < 0.2}
+
+
 def gen_split(rng):
     """judge-only: a module-level request preempted between two of its lines by the cycle thread"""
     case = gen_random(rng, True, False)
@@ -776,6 +890,7 @@ def gen_split(rng):
 def features(events):
     kinds = set()
     ncl = 0
+    prev = None
     for e in events:
         if e[0] == 'int':
             kinds.add('int:' + e[1])
@@ -785,6 +900,16 @@ def features(events):
             kinds.add('pickup')
         elif e[0] == 'ret' and e[1] == 'finish':
             kinds.add('finish')
+        if e[0] == 'ret' and prev is not None and prev[0] == 'cleanup' and isinstance(e[1], list):
+            kinds.add('cleanup-sequence')
+        if e[0] == 'enter' and e[1] is not None and HS_STATUS.get(e[1], [300])[0] < 300:
+            kinds.add('entered-state-declared-not-busy')
+        if e[0] == 'post' and e[1][0] == 'start' and e[1][4] is not None and not 300 <= e[1][4][0] < 400:
+            kinds.add('override-not-busy')
+        if e[0] in ('call', 'cleanup', 'ret'):
+            prev = e
+    if sum(1 for e in events if e[0] == 'pickup') > 1:
+        kinds.add('several-runs')
     if ncl:
         kinds.add('cleanup')
     return kinds
@@ -905,6 +1030,20 @@ def run(ctx):
                 check_cases(ctx, res, batch, 'exhaustive')
                 batch = []
         check_cases(ctx, res, batch, 'exhaustive')
+    # ---------- catalogue: interruptions x cleanups ----------
+    batch = []
+    for _ in range(1 if not thorough else 5):
+        for case in cleanup_catalogue(rng):
+            ev, err, _, _ = impl_run(case)
+            batch.append((case, ev, err))
+    check_cases(ctx, res, batch, 'catalogue')
+    # ---------- several runs on one instance ----------
+    batch = []
+    for i in range(ctx.budget(600, 12000)):
+        case = gen_runs(rng, i % 3 != 0)
+        ev, err, _, _ = impl_run(case)
+        batch.append((case, ev, err))
+    check_cases(ctx, res, batch, 'runs')
     # ---------- random ----------
     batch = []
     for i in range(ctx.budget(1500, 30000)):
